@@ -687,6 +687,7 @@ func c09e(c *Ctx) {
 // ---- C10 -----------------------------------------------------------------------------------
 
 func c10a(c *Ctx) {
+	c10aParenArms(c)
 	fn := c.Fn("parser.Parser.parseCommandStatement")
 	nt := c.Fn("parser.Parser.nextToken")
 	if fn == nil || nt == nil {
@@ -1368,6 +1369,66 @@ func c10e(c *Ctx) {
 		}
 		c.Check(len(regs) > 0 && !skip, "parseTextStatement/every-text-registered", c.W.FuncPos(pts), "every parsed text statement is put on the parser's list", why)
 	}
+	// what parseStatement parsed goes into its result once, and whenever it was parsed: an append of
+	// a parse result stands under token-kind tests, error tests and "the result is not nil" only,
+	// and no way leads from one append of a result to a second append of the same result
+	{
+		type app struct {
+			call *ssa.Call
+			src  ssa.Value
+		}
+		var apps []app
+		for _, ci := range callsIn(ps) {
+			call, ok := ci.(*ssa.Call)
+			if !ok || calleeName(call) != "builtin:append" || len(call.Call.Args) != 2 {
+				continue
+			}
+			var srcs []ssa.Value
+			if es := varargElems(call.Call.Args[1]); len(es) > 0 {
+				srcs = es
+			} else {
+				srcs = []ssa.Value{call.Call.Args[1]}
+			}
+			for _, e := range srcs {
+				var leaves []ssa.Value
+				phiLeaves(e, map[ssa.Value]bool{}, &leaves)
+				for _, lf := range leaves {
+					v := unwrapIface(lf)
+					if ex, isEx := v.(*ssa.Extract); isEx {
+						v = ex
+					}
+					if _, isCall := unExtract(v).(*ssa.Call); isCall {
+						apps = append(apps, app{call, v})
+					}
+				}
+			}
+		}
+		base := map[string]bool{}
+		for _, l := range c.mustLits(ps, ps.Blocks[0]) {
+			base[l] = true
+		}
+		for i, a := range apps {
+			var extra []string
+			vt := c.term(ps, a.src)
+			for _, l := range c.mustLits(ps, a.call.Block()) {
+				l2 := verRe.ReplaceAllString(l, "")
+				if base[l] || tokenTypeLitRe.MatchString(l2) || errLitRe.MatchString(l2) || l2 == "-("+vt+" == nil)" || strings.HasSuffix(l2, " == nil)") || strings.HasSuffix(l2, " != nil)") {
+					continue
+				}
+				extra = append(extra, l)
+			}
+			c.Check(len(extra) == 0, fmt.Sprintf("parseStatement/result-kept-whenever-parsed#%d", i), c.W.Pos(a.call.Pos()), "the parse result is appended under token-kind, error and nil tests only", fmt.Sprintf("the result %s is put into the statement list only under the further condition(s) %v: in the other cases the statement (an AutoVar command in front of its switch, say) is parsed and dropped", pretty(vt), prettyAll(extra)))
+			for j, b := range apps {
+				if i == j || a.src != b.src || a.call == b.call {
+					continue
+				}
+				if _, again := existsPath(pathQuery{from: after(a.call), target: func(x ssa.Instruction) bool { return x == ssa.Instruction(b.call) }}); again {
+					c.Bad(fmt.Sprintf("parseStatement/result-appended-once#%d", i), c.W.Pos(b.call.Pos()), "the result "+pretty(vt)+" is appended to the statement list a second time: the statement would be emitted (and run) twice")
+				}
+			}
+		}
+		c.Check(len(apps) >= 8, "parseStatement/results", c.W.FuncPos(ps), fmt.Sprintf("%d appends of parse results", len(apps)), fmt.Sprintf("only %d appends of parse results found in parseStatement", len(apps)))
+	}
 	// each statement keyword has its parser: whatever follows the keyword, a token of that kind is
 	// handed to the parser of that statement and to no other (a `break(` treated as a command is
 	// not rejected outside a loop)
@@ -1656,4 +1717,86 @@ func blockCtorParam(c *Ctx, g *ssa.Function) int {
 		idx = k
 	}
 	return idx
+}
+
+// c10aParenArms: the nesting depth of the argument loop goes up at every '(' and down at every
+// ')' — the arm that moves it is chosen by the kind of the current token (and, for ')', by the
+// depth itself) and by nothing else. A '(' that is handled as ordinary text under some further
+// condition leaves the depth one short, and the argument list ends at an inner ')'.
+func c10aParenArms(c *Ctx) {
+	fn := c.Fn("parser.Parser.parseCommandStatement")
+	if fn == nil {
+		return
+	}
+	n := 0
+	instrs(fn, func(in ssa.Instruction) {
+		bo, ok := in.(*ssa.BinOp)
+		if !ok || (bo.Op.String() != "+" && bo.Op.String() != "-") {
+			return
+		}
+		if k, isC := intConst(bo.Y); !isC || k != 1 {
+			return
+		}
+		ph, isPhi := bo.X.(*ssa.Phi)
+		if !isPhi || !isLoopHeader(ph.Block()) {
+			return
+		}
+		if b, isB := ph.Type().Underlying().(*types.Basic); !isB || b.Kind() != types.Int {
+			return
+		}
+		// a counter that is compared with zero in the loop: the depth
+		pt := c.term(fn, ph)
+		h := ph.Block()
+		if !loopBody(h)[bo.Block()] {
+			return
+		}
+		n++
+		base := map[string]bool{}
+		for _, sc := range h.Succs {
+			if loopBody(h)[sc] {
+				for _, l := range c.mustLits(fn, sc) {
+					base[verRe.ReplaceAllString(l, "")] = true
+				}
+			}
+		}
+		var extra []string
+		for _, l := range c.mustLits(fn, bo.Block()) {
+			l2 := verRe.ReplaceAllString(l, "")
+			if base[l2] || tokenTypeLitRe.MatchString(l2) || errLitRe.MatchString(l2) || strings.Contains(l2, verRe.ReplaceAllString(pt, "")) {
+				continue
+			}
+			extra = append(extra, l)
+		}
+		// ... not even as one of several alternatives: with the token-kind tests (and, for the
+		// way down, the depth tests) set aside, the condition of the update is simply true
+		if len(extra) == 0 {
+			d := c.PC(fn).At(bo.Block())
+			isUp := bo.Op.String() == "+"
+			ptn := verRe.ReplaceAllString(pt, "")
+			d = dropAtoms(d, func(a string) bool {
+				a2 := verRe.ReplaceAllString(a, "")
+				if base["+"+a2] || base["-"+a2] {
+					return true
+				}
+				if regexpMust(`^\(\$0\.curToken\.Type == "[^"]*"\)$`).MatchString(a2) || strings.HasSuffix(a2, " == nil)") {
+					return true
+				}
+				if !isUp && strings.Contains(a2, ptn) {
+					return true
+				}
+				return false
+			})
+			isTrue := false
+			for _, cj := range d.cs {
+				if len(cj) == 0 {
+					isTrue = true
+				}
+			}
+			if !isTrue && !d.unknown {
+				extra = append(extra, d.String())
+			}
+		}
+		c.Check(len(extra) == 0, fmt.Sprintf("arg-loop/depth-moves-for-every-paren#%d", n), c.W.Pos(bo.Pos()), "the depth moves under the kind of the current token (and the depth) alone", fmt.Sprintf("the nesting depth is changed only under the further condition(s) %v: a parenthesis for which they fail is not counted, and the argument list ends (or fails to end) at the wrong ')'", prettyAll(extra)))
+	})
+	c.Check(n >= 2, "arg-loop/depth-moves-for-every-paren", c.W.FuncPos(fn), fmt.Sprintf("%d depth updates", n), fmt.Sprintf("only %d depth updates found in the argument loop", n))
 }
